@@ -206,7 +206,10 @@ ocp.set_der(v, a)
                 [tau,B] = eval_on_knots(self.xi,dmax-i,subsamples=refine-1)
                 self.B[refine][self.N+d] = B
                 self.tau[refine] = tau
-        self.time[refine] = self.time_grid(self.t0, self.T, self.N*refine)
+        # Time stamps of the refined samples: each control interval is subdivided in 'refine' equal parts
+        # (this is where the basis matrices B are evaluated), also on non-uniform grids
+        [tau_time,_] = eval_on_knots(self.xi,0,subsamples=refine-1)
+        self.time[refine] = self.t0+self.T*tau_time
 
         # Evaluate spline on the control grid
         for L,chains in self.groups.items():
